@@ -1,6 +1,8 @@
 /-
   Line-protocol handler for C07.
   c07 parse tok*                      → ok [a,b],[c] | error        tok = s<hex> | ( | ) | ; | /
+  c07 window h<hex of the value of fc.range>   → ok <hex selector> <start> <end> | error      (Model/Window parseRange)
+  c07 rows <start> <end> <n>                 → the indices of 0..n-1 the window lets through (Model/Window rowsOf)
   c07 proj <query> <target> <schema> <data>
      query  = d (-|n)  c (all|config|nonconfig)  f (-|k tok*)  x (-|k tok*)  t (0|1)  r (-|k tok* start (end|-))
      target = body | list
@@ -8,6 +10,7 @@
      data   = n item*     item = - | v hex | c- | c data | r k data*          (target list: k data*)
 -/
 import YangVerif.Model.Query
+import YangVerif.Model.Window
 import YangVerif.Model.Util
 namespace YangVerif.Drv.C07
 open YangVerif YangVerif.Query
@@ -117,6 +120,16 @@ def showPaths (ps : List Path) : String :=
 
 def handle (toks : List String) : String :=
   match toks with
+  | ["window", h] =>
+    match unhexBytes (h.drop 1).toString with
+    | some bs => match Window.parseRange bs with
+      | some (sel, st, en) => s!"ok {hexBytes sel} {st} {en}"
+      | none => "error"
+    | none => "bad-op"
+  | ["rows", st, en, n] =>
+    match st.toInt?, en.toInt?, n.toNat? with
+    | some st, some en, some n => " ".intercalate ("rows" :: (Window.rowsOf st en (List.range n)).map toString)
+    | _, _, _ => "bad-op"
   | "parse" :: rest =>
     match pToks rest.length rest with
     | some (ts, []) => match parseExpr ts with
